@@ -9,6 +9,9 @@ From MV Require Import Dir.PyLines.
 From MV Require Import Dir.PyLinesProofs.
 From MV Require Import Dir.DirModel.
 From MV Require Import Dir.DirProofs.
+From MV Require Import Dir.PyRuntime.
+From MV Require Import Gen.DirSrc.
+From MV Require Import Dir.DirSrcProofs.
 From MV Require Import Opt.OptModel.
 From MV Require Import Opt.OptComments.
 From MV Require Import Opt.YamlSpec.
@@ -166,6 +169,76 @@ Print Assumptions C08_styles_interchangeable_c07_partial.
 (* non-vacuity of [c07_block_text]: the lines "class: x" / "name: y" *)
 Example C08_c07_block_example : c07_block_text (join_nl ex_kvs) /\ Forall kv_line ex_kvs.
 Proof. exact ex_kvs_block_text. Qed.
+
+(* ---- the same theorems about the definitions REGENERATED from parsers/directives.py on every run (Gen/DirSrc.v,
+   gen/c08_dirsrc.py): split_lines, parse_directive_arguments, _parse_directive_options, parse_directive_text translated
+   statement by statement and proved equal to the model (Dir/DirSrcProofs.v).  An edit of the Python code changes the
+   subject of these theorems. ---- *)
+
+Theorem C08_src_refines_model :
+  forall tokenize yaml_load,
+  (forall text, split_lines_src text = Ok (splitlines text)) /\
+  (forall sg t, parse_directive_arguments_src sg t = parse_directive_arguments sg t) /\
+  (forall content sg as_yaml line additional,
+     parse_directive_options_src tokenize yaml_load content sg as_yaml line additional =
+     parse_directive_options tokenize yaml_load content sg as_yaml line additional) /\
+  (forall sg first_line content line validate additional,
+     parse_directive_text_src tokenize yaml_load sg first_line content line validate additional =
+     parse_directive_text tokenize yaml_load sg first_line content line validate additional).
+Proof.
+  exact (fun tk yl => conj split_lines_src_eq (conj parse_directive_arguments_src_eq
+          (conj (parse_directive_options_src_eq tk yl) (parse_directive_text_src_eq tk yl)))).
+Qed.
+Print Assumptions C08_src_refines_model.
+
+Theorem C08_body_is_suffix_src :
+  forall tokenize yaml_load sg first_line content line validate additional r lines,
+  parse_directive_text_src tokenize yaml_load sg first_line content line validate additional = Ok r ->
+  split_lines_src content = Ok lines ->
+  first_line_is_body sg first_line = false ->
+  (0 <= r_body_offset r)%Z /\ r_body r = skipn (Z.to_nat (r_body_offset r)) lines.
+Proof. exact body_is_suffix_src. Qed.
+Print Assumptions C08_body_is_suffix_src.
+
+Theorem C08_offset_is_index_src :
+  forall tokenize yaml_load sg first_line content line validate additional r lines,
+  parse_directive_text_src tokenize yaml_load sg first_line content line validate additional = Ok r ->
+  split_lines_src content = Ok lines ->
+  first_line_is_body sg first_line = false ->
+  exists n, opt_extent sg lines n /\
+            let k := (n + if blank_at n lines then 1 else 0)%nat in
+            r_body_offset r = Z.of_nat k /\ r_body r = skipn k lines /\ (k <= length lines)%nat.
+Proof. exact offset_is_index_src. Qed.
+Print Assumptions C08_offset_is_index_src.
+
+Theorem C08_arguments_src :
+  forall sg arg_text,
+  let n := length (split_ws arg_text) in
+  let total := (required_arguments sg + optional_arguments sg)%nat in
+  (parse_directive_arguments_src sg arg_text = Raise MarkupError <->
+     (n < required_arguments sg)%nat \/ ((total < n)%nat /\ final_argument_whitespace sg = false)) /\
+  (forall e, parse_directive_arguments_src sg arg_text = Raise e -> e = MarkupError) /\
+  ((required_arguments sg <= n <= total)%nat -> parse_directive_arguments_src sg arg_text = Ok (split_ws arg_text)) /\
+  ((0 < total < n)%nat -> final_argument_whitespace sg = true ->
+     exists last, parse_directive_arguments_src sg arg_text = Ok (firstn (total - 1) (split_ws arg_text) ++ [last]) /\
+                  is_suffix last arg_text /\ lstrip last = last /\
+                  split_ws last = skipn (total - 1) (split_ws arg_text)).
+Proof. exact arguments_src. Qed.
+Print Assumptions C08_arguments_src.
+
+Theorem C08_block_priority_src :
+  forall tokenize yaml_load sg first_line content line additional r items has_comments,
+  has_option_spec sg = true -> is_test sg = false ->
+  block_items tokenize content line items has_comments ->
+  parse_directive_text_src tokenize yaml_load sg first_line content line true additional = Ok r ->
+  r_options r = kept_of sg (merged_options items additional) /\
+  forall k, dict_get (merged_options items additional) k =
+            match dict_get (dict_of items) k with
+            | Some v => Some v
+            | None => match additional with Some a => dict_get (dict_of a) k | None => None end
+            end.
+Proof. exact block_priority_src. Qed.
+Print Assumptions C08_block_priority_src.
 
 (* The splitter as it was before fix 601d16e (body re-joined and re-split) does not meet C08_body_is_suffix. *)
 Theorem C08_rejoin_refuted :
